@@ -134,6 +134,16 @@ def doSha (h : String) : String :=
   let (b, j) := parseHex bs 0 #[]
   if j != bs.size then "bad-op" else toHexStr (Sha256.hash (ByteArray.mk b)).toList
 
+def kvNat (key s : String) : Option Nat :=
+  match s.splitOn "=" with
+  | [k, v] => if k == key then v.toNat? else none
+  | _ => none
+
+def doCombine (a b : String) : String :=
+  match kvNat "t" a, kvNat "shares" b with
+  | some t, some k => if combineAccepts t k then "accept" else "refuse"
+  | _, _ => "bad-op"
+
 def step (_ : Unit) (line : String) : Unit × String :=
   let out :=
     match line.splitOn " " with
@@ -145,6 +155,7 @@ def step (_ : Unit) (line : String) : Unit × String :=
     | ["reenc"] => "-"
     | ["tamper", _, _] => "-"
     | ["forged", _, _, _] => "-"
+    | ["combine", a, b] => doCombine a b
     | "create" :: _ => "-"
     | _ => "bad-op"
   ((), out)
